@@ -92,7 +92,7 @@ def run(chk, args):
         "structure-aware single mutations of small instances only; SQL text and purely random byte strings are not covered",
         "the PostgreSQL startup packet parser and the byte decoder of KVMetadata are not exported: the first is not covered, the "
         "second is reached through ReplicateTx",
-        "allocation is judged per call: more than 256 MiB (or exhausting a 8 GiB address space in the decoder child process) for "
+        "allocation is judged per call: more than 256 MiB (or exhausting a 3 GiB address space in the decoder child process) for "
         "inputs of at most a few hundred bytes is a runaway allocation"]
     if replay:
         want = replay.get("signature")
